@@ -5,7 +5,7 @@ import os
 def run(ctx):
     scen = os.path.join(ctx.work, "ext.scen.ndjson")
     open(scen, "w").close()
-    for cfg in (["GenX_n1", "GenX_n2", "GenX_n3c"] if ctx.quick else ["GenX_n1", "GenX_n2", "GenX_n3c", "GenX_n2z", "GenX_n2m", "GenX_n3"]):
+    for cfg in (["GenX_n1", "GenX_n2", "GenX_n2f", "GenX_n3c"] if ctx.quick else ["GenX_n1", "GenX_n2", "GenX_n2f", "GenX_n3c", "GenX_n2z", "GenX_n2m", "GenX_n3"]):
         part = ctx.gen("System", "Gen_Ext.tla", cfg + ".cfg", cfg, workers=8, timeout=6000, heap="16g")
         with open(scen, "a") as out:
             for i, line in enumerate(open(part)):
